@@ -188,15 +188,57 @@ Theorem C03_nonforwarding_wrapper_partial :
     erase_obs (wrapped_observe_with false k b s0 ops) = plain_observe k b s0 ops.
 Proof. exact (fun k S b s0 ops Hk Hs => wrap_gen_send_only k b s0 ops Hk Hs). Qed.
 
+(* ---- kernprof's interval timer (kernprof -i) ------------------------------------------------ *)
+(* A program under kernprof: calls of functions decorated by kernprof's profiler p, interleaved in any way
+   with ticks of the interval timer (another thread calling prof.dump_stats).  For every tick function that
+   keeps the by-count invariant (count 0 => nobody holds the tool id) every call returns what the
+   undecorated function returns; both real tick functions keep it. *)
+Theorem C03_timer_harmless :
+  forall (tick : mon -> mon) (p : Z) (g : Z -> fres),
+    (forall m, timer_inv p m -> timer_inv p (tick m)) ->
+    forall (steps : list pstep) (m : mon), timer_inv p m ->
+      fst (run_steps tick (wrap_function p (pure g)) steps m) = map g (call_args steps).
+Proof. exact timer_harmless. Qed.
+
+Theorem C03_timer_harmless_kernprof :
+  forall (p : Z) (g : Z -> fres) (steps : list pstep),
+    fst (run_steps (dump_cprofile p) (wrap_function p (pure g)) steps mon0) = map g (call_args steps)
+    /\ fst (run_steps (dump_line_profiler p) (wrap_function p (pure g)) steps mon0) = map g (call_args steps).
+Proof. exact (fun p g steps => conj (timer_harmless_cprofile p g steps) (timer_harmless_line_profiler p g steps)). Qed.
+
+(* non-vacuous, and the invariant matters: a tick that switched the profiler back on behind the count
+   (dump, then prof.enable()) makes the next decorated call raise *)
+Theorem C03_timer_nonvacuous :
+  fst (run_steps (dump_and_resume 2) (wrap_function 2 (pure const7)) [SCall 0; STick; SCall 0] mon0)
+  = [FRet 7; FRaise ValueErr].
+Proof. exact resuming_tick_breaks_calls. Qed.
+
 (* ---- metadata ------------------------------------------------------------------------------- *)
-(* name, docstring, signature and function kind of what wrap_callable returns for a plain
-   function object of any kind are those of the original *)
-Theorem C03_metadata : forall m : fmeta, wrap_meta m = m.
+(* name, docstring, signature of what wrap_callable returns for a function object of ANY kind are those of
+   the original *)
+Theorem C03_metadata_names :
+  forall m : fmeta,
+    m_name (wrap_meta m) = m_name m /\ m_doc (wrap_meta m) = m_doc m /\ m_sig (wrap_meta m) = m_sig m.
+Proof. exact wrap_meta_names. Qed.
+
+(* ... and so is the function kind for plain functions, generator functions, coroutine functions and
+   async generator functions.  Missing w.r.t. the full statement (forall m, wrap_meta m = m): generator
+   functions marked @types.coroutine, see C03_metadata_refuted. *)
+Theorem C03_metadata_partial : forall m : fmeta, m_kind m <> FGenCoroutine -> wrap_meta m = m.
 Proof. exact wrap_meta_id. Qed.
+
+(* The full statement is FALSE of the faithful model: a @types.coroutine generator function (for inspect a
+   generator function whose result may be awaited) is given wrap_generator's plain generator closure - the
+   iterable-coroutine flag is lost and `await decorated()` raises TypeError. *)
+Theorem C03_metadata_refuted :
+  forall m : fmeta, m_kind m = FGenCoroutine -> m_kind (wrap_meta m) = FGenerator /\ wrap_meta m <> m.
+Proof. exact wrap_meta_gencoroutine. Qed.
 
 Theorem C03_metadata_nonvacuous :
   wrap_meta {| m_name := "fib"; m_doc := Some "doc"%string; m_sig := 3; m_kind := FAsyncGenerator |}
   = {| m_name := "fib"; m_doc := Some "doc"%string; m_sig := 3; m_kind := FAsyncGenerator |}
   /\ template FAsyncGenerator
-     <> {| m_name := "fib"; m_doc := Some "doc"%string; m_sig := 3; m_kind := FAsyncGenerator |}.
+     <> {| m_name := "fib"; m_doc := Some "doc"%string; m_sig := 3; m_kind := FAsyncGenerator |}
+  /\ wrap_meta {| m_name := "sleep0"; m_doc := None; m_sig := 1; m_kind := FGenCoroutine |}
+     = {| m_name := "sleep0"; m_doc := None; m_sig := 1; m_kind := FGenerator |}.
 Proof. exact wrap_meta_nonvacuous. Qed.
